@@ -14,15 +14,15 @@ pub open spec fn page_off(x: u64) -> int { (x % 1024) as int }
 /// the masks the code uses select page base and offset
 pub proof fn lemma_page_bits(x: u64)
     ensures
-        x & !(1024u64 - 1) == page_base(x),
-        x & !((1024usize as u64) - 1) == page_base(x),
-        (x & (1024u64 - 1)) as int == page_off(x),
+        x & !1023u64 == page_base(x),
+        x & PAGE_MASK == page_base(x),
+        (x & 1023u64) as int == page_off(x),
         page_base(x) % 1024 == 0,
         page_base(x) <= x < page_base(x) + 1024,
         page_base(x) + page_off(x) == x,
 {
-    assert(x & !(1024u64 - 1) == x - x % 1024) by (bit_vector);
-    assert(x & (1024u64 - 1) == x % 1024) by (bit_vector);
+    assert(x & !1023u64 == x - x % 1024) by (bit_vector);
+    assert(x & 1023u64 == x % 1024) by (bit_vector);
     assert((x - x % 1024) as u64 % 1024 == 0) by (bit_vector);
 }
 
@@ -182,4 +182,121 @@ pub open spec fn write_cells<V: Value>(c: Cells<V>, a: u64, v: V, k: nat) -> Cel
         |x: u64| (a <= x < a + k) || c.contains_key(x),
         |x: u64| if x == a { MemoryCell::Value(v) } else if a < x < a + k { MemoryCell::Backref(a) } else { c[x] },
     )
+}
+
+// ---- cells_of under edits of the page map ---------------------------------------------------------
+
+/// a page is replaced by (or created as) one with the same cells: the cell map does not change
+pub proof fn lemma_cells_same_page<V: Value>(pages0: PageMap<V>, k: u64, p1: RC<Page<V>>)
+    requires
+        pages_wf(pages0),
+        k % 1024 == 0,
+        p1.cells@.len() == 1024,
+        pages0.contains_key(k) ==> p1.cells@ == pages0[k].cells@,
+        !pages0.contains_key(k) ==> forall|i: int| 0 <= i < 1024 ==> (#[trigger] p1.cells@[i]) is None,
+    ensures
+        pages_wf(pages0.insert(k, p1)),
+        cells_of(pages0.insert(k, p1)) == cells_of(pages0),
+{
+    reveal(cells_of);
+    let pages1 = pages0.insert(k, p1);
+    assert forall|x: u64| cell_at(pages1, x) == cell_at(pages0, x) by {
+        if page_base(x) == k {
+            if !pages0.contains_key(k) { assert(p1.cells@[page_off(x)] is None); }
+        }
+    }
+    assert(cells_of(pages1) =~= cells_of(pages0));
+}
+
+/// one cell of an existing page is overwritten
+pub proof fn lemma_cells_store<V: Value>(pages0: PageMap<V>, address: u64, cell: MemoryCell<V>, p1: RC<Page<V>>)
+    requires
+        pages_wf(pages0),
+        pages0.contains_key(page_base(address)),
+        p1.cells@ == pages0[page_base(address)].cells@.update(page_off(address), Some(cell)),
+    ensures
+        pages_wf(pages0.insert(page_base(address), p1)),
+        cells_of(pages0.insert(page_base(address), p1)) == cells_of(pages0).insert(address, cell),
+{
+    reveal(cells_of);
+    let k = page_base(address);
+    let pages1 = pages0.insert(k, p1);
+    assert forall|x: u64| cell_at(pages1, x) == (if x == address { Some(cell) } else { cell_at(pages0, x) }) by {
+        lemma_page_split(x, address);
+    }
+    assert(cells_of(pages1) =~= cells_of(pages0).insert(address, cell));
+}
+
+/// a page is created holding one cell
+pub proof fn lemma_cells_store_new<V: Value>(pages0: PageMap<V>, address: u64, cell: MemoryCell<V>, p1: RC<Page<V>>)
+    requires
+        pages_wf(pages0),
+        !pages0.contains_key(page_base(address)),
+        p1.cells@.len() == 1024,
+        forall|i: int| 0 <= i < 1024 ==> #[trigger] p1.cells@[i] == (if i == page_off(address) { Some(cell) } else { None::<MemoryCell<V>> }),
+    ensures
+        pages_wf(pages0.insert(page_base(address), p1)),
+        cells_of(pages0.insert(page_base(address), p1)) == cells_of(pages0).insert(address, cell),
+{
+    reveal(cells_of);
+    let k = page_base(address);
+    let pages1 = pages0.insert(k, p1);
+    assert forall|x: u64| cell_at(pages1, x) == (if x == address { Some(cell) } else { cell_at(pages0, x) }) by {
+        lemma_page_split(x, address);
+        if page_base(x) == k { assert(p1.cells@[page_off(x)] == (if page_off(x) == page_off(address) { Some(cell) } else { None::<MemoryCell<V>> })); }
+    }
+    assert(cells_of(pages1) =~= cells_of(pages0).insert(address, cell));
+}
+
+/// an empty page map has no cells
+pub proof fn lemma_cells_empty<V: Value>(pages: PageMap<V>)
+    requires pages == Map::<u64, RC<Page<V>>>::empty(),
+    ensures pages_wf(pages), cells_wf(cells_of(pages)), forall|x: u64| !(#[trigger] cells_of(pages).contains_key(x)),
+{
+    reveal(cells_of);
+}
+
+// ---- equality ---------------------------------------------------------------------------------------
+
+/// same page keys and, per key, the same cells and the same permissions
+pub open spec fn pages_eq<V: Value>(a: PageMap<V>, b: PageMap<V>) -> bool {
+    a.dom() =~= b.dom() && forall|k: u64| #[trigger] a.contains_key(k) ==> a[k].cells@ == b[k].cells@ && a[k].permissions == b[k].permissions
+}
+
+pub open spec fn opt_backing_eq(a: Option<RC<backing::Memory>>, b: Option<RC<backing::Memory>>) -> bool {
+    match a {
+        Some(x) => (match b { Some(y) => backing::backing_eq(*x, *y), None => false }),
+        None => b is None,
+    }
+}
+
+/// what `==` on paged memories decides
+pub open spec fn mem_eq<V: Value>(a: Memory<V>, b: Memory<V>) -> bool {
+    pages_eq(a.pages@, b.pages@) && a.endian == b.endian && opt_backing_eq(a.backing, b.backing)
+}
+
+/// equality is reflexive on structurally identical memories (a memory and its clone) and implies the
+/// same content, the same permissions and the same endianness — hence the same result for every load
+pub proof fn lemma_mem_eq<V: Value>(a: Memory<V>, b: Memory<V>)
+    ensures
+        (a.pages@ == b.pages@ && a.endian == b.endian && a.backing == b.backing) ==> mem_eq(a, b),
+        mem_eq(a, b) && b.bk_wf() ==> a.endian == b.endian && a.cells() == b.cells()
+            && (forall|x: int| #[trigger] a.full(x) == b.full(x))
+            && (forall|x: u64| (#[trigger] a.perm(x)) == b.perm(x)),
+{
+    if mem_eq(a, b) && b.bk_wf() {
+        reveal(cells_of);
+        assert forall|x: u64| cell_at(a.pages@, x) == cell_at(b.pages@, x) by {
+            let k = page_base(x);
+            assert(a.pages@.dom().contains(k) == b.pages@.dom().contains(k));
+        }
+        assert(a.cells() =~= b.cells());
+        if a.backing is Some {
+            backing::lemma_backing_eq_view(a.bk()->Some_0, b.bk()->Some_0);
+        }
+        assert forall|x: u64| (#[trigger] a.perm(x)) == b.perm(x) by {
+            let k = page_base(x);
+            assert(a.pages@.dom().contains(k) == b.pages@.dom().contains(k));
+        }
+    }
 }
